@@ -226,11 +226,15 @@ def plan_c15(pid, tier, seed, ncpu):
     total = scale(tier, 1200000, 12000000)
 
     def jobs(bindirs, workdir, known):
-        return seq_jobs(bindirs["dbg"], workdir, known, pid, "pure", total, 40, seed, ncpu, mode="pure", prefix="pure")
+        js = seq_jobs(bindirs["dbg"], workdir, known, pid, "pure", total, 40, seed, ncpu, mode="pure", prefix="pure")
+        # beside other threads: a deterministic single-writer program run alone and again beside 1-3 threads that only call
+        # contains_key and iterate (holding a yielded entry reference, i.e. a shard read lock, for up to 300 us)
+        js += con_jobs(bindirs["dbg"], workdir, known, pid, "observers", seed, 4, programs=scale(tier, 2400, 80000), schedules=1)
+        return js
 
     fl = {"pairs_with_extra_call_on_lru_entry": 1000, "pairs_with_extra_call_on_candidate_before_insert": 1000,
           "pairs_with_extra_call_within_1_tick_of_idle_deadline": 100, "pairs_with_extra_call_while_excess_or_dead_entry_pending": 1000,
-          "pairs_sync": 1000, "pairs_unsync": 1000}
+          "pairs_sync": 1000, "pairs_unsync": 1000, "observed_programs": 1000, "entry_references_held_beside_the_writer": 10000}
     return dict(variants=["dbg"], jobs=jobs, floors=fl,
                 rule="metamorphic pairs: a base history h (tti and tight capacities) and h' = h plus extra contains_key/iter calls at random positions, "
                      "biased to the LRU entry, to entries within one tick of their idle deadline, to candidate keys right before their insert and to states with "
@@ -238,7 +242,9 @@ def plan_c15(pid, tier, seed, ncpu):
                      "time-to-live ends first, grow another one, advance to that deadline, then one operation that has to purge and evict); after "
                      "every base op both runs must agree on the op result, the popularity table (bit-identical), live entries with timestamps and the "
                      "recency order (concurrent cache: the whole physical snapshot). Non-trivial: a pair in which an extra call hit one of the "
-                     "targets; distinct by fingerprint of (config, base ops, number of extras).",
+                     "targets; distinct by fingerprint of (config, base ops, number of extras). Concurrent clause: a seeded single-writer program on the concurrent cache "
+                     "(tight capacity, un-synced operations, clock advances) is run alone and again beside 1-3 observer threads that only call contains_key and iterate, holding a "
+                     "yielded entry reference for up to 300 us: the writer's results, the counters, the popularity table and the physical state after the program must be identical.",
                 assumptions=COMMON_ASSUMPTIONS + ["iter results are compared only when neither run has a size eviction pending (C04 allows that transient)"],
                 watchdog_s=scale(tier, 600, 3600))
 
